@@ -12,6 +12,10 @@ pub(crate) fn any_inner() -> InnerCrypto {
     InnerCrypto { inner: rc4h::any_rc4() }
 }
 
+pub(crate) fn any_inner_at(i: u8) -> InnerCrypto {
+    InnerCrypto { inner: rc4h::any_rc4_at(i) }
+}
+
 pub(crate) fn inner_same(a: &InnerCrypto, b: &InnerCrypto) -> bool {
     rc4h::rc4_same(&a.inner, &b.inner)
 }
